@@ -16,7 +16,7 @@ RULE = ('Every map file shipped (all files the index names plus the other map-sh
 ASSUMPTIONS = ['a syntax note that mentions a position beyond the elements its segment node defines is reported as information, not as ill-formed',
                'composite nodes report "<segment path>/" as their path; their addressability is judged through getnodebypath2(<segment path><refdes>)',
                'wrapper loops and loops whose first child is a loop have no qualifier of their own; distinguishability is judged on their entry segments']
-REQUIRED_COUNTERS = ['maps-loaded', 'index-entries', 'nodes:loop', 'nodes:segment', 'nodes:element', 'nodes:composite', 'lookups:getnodebypath', 'lookups:getnodebypath2',
+REQUIRED_COUNTERS = ['maps-loaded-with-debug-logging', 'path-lists-compared', 'maps-loaded', 'index-entries', 'nodes:loop', 'nodes:segment', 'nodes:element', 'nodes:composite', 'lookups:getnodebypath', 'lookups:getnodebypath2',
                      'fingerprints-compared', 'data-element-refs', 'external-code-refs', 'tables:codesets-compared', 'tables:data-elements-compared', 'tables:external-refs-against-loaded-table']
 MIN_CASES = {'quick': 20000, 'thorough': 20000}
 SHARDS = {'quick': 16, 'thorough': 16}
@@ -188,13 +188,26 @@ def check_map(ctx, fn, indexed, DE, CODES, map_dir):
                                  {'common': sorted(set.intersection(*[set(v) for v in (list(d1.values()) + list(d2.values()))]))[:10] if d1 and d2 else 'no qualifier'})
     # --- the real loader, both ways
     loaded = []
-    for mode, mp in (('resources', None), ('map_path', map_dir)):
+    import logging
+    lg = logging.getLogger('pyx12')
+    for mode, mp in (('resources', None), ('map_path', map_dir), ('resources+debug-logging', None)):
+        # (third way: what the command-line tools do for -d / -v before they load anything - logging may cost time, not change the tree)
+        old_level, old_prop = lg.level, lg.propagate
         try:
+            if mode.endswith('debug-logging'):
+                if not any(isinstance(h, logging.NullHandler) for h in lg.handlers):
+                    lg.addHandler(logging.NullHandler())
+                lg.propagate = False
+                lg.setLevel(logging.DEBUG)
+                ctx.count('maps-loaded-with-debug-logging')
             m = pyx12.map_if.load_map_file(fn, param, mp)
             loaded.append((mode, m))
         except Exception as ex:
             ctx.viol('map:load:%s:%s' % (fn, exc_key(ex)), 'a shipped map file cannot be loaded (%s)' % ('named by the index' if indexed else 'not indexed'),
                      dict(case, mode=mode), {'exc': repr(ex)[:300]})
+        finally:
+            lg.setLevel(old_level)
+            lg.propagate = old_prop
     if not loaded:
         return nchecked, sigs
     ctx.count('maps-loaded')
@@ -210,9 +223,17 @@ def check_map(ctx, fn, indexed, DE, CODES, map_dir):
         d = first_diff(f, want)
         if d:
             ctx.viol('map:tree-differs-from-xml:%s' % mode, 'the loaded tree differs from an independent reading of the XML', dict(case, mode=mode), {'at': d[0], 'loaded': repr(d[1])[:200], 'xml': repr(d[2])[:200]})
-    if len(fps) == 2 and fps[0][1] != fps[1][1]:
-        d = first_diff(fps[0][1], fps[1][1])
-        ctx.viol('map:loading-modes-differ', 'loading from map_path gives a different tree than the packaged resources', case, {'at': d})
+    for mode2, f2 in fps[1:]:
+        if fps[0][1] != f2:
+            d = first_diff(fps[0][1], f2)
+            ctx.viol('map:loading-modes-differ', 'loading from map_path (or with debug logging on) gives a different tree than the packaged resources', dict(case, mode=mode2), {'at': d})
+    plists = [(mode_, [nd.get_path() for nd in m_.loop_segment_iterator() if not nd.is_map_root()]) for mode_, m_ in loaded]
+    for mode2, pl in plists[1:]:
+        ctx.count('path-lists-compared')
+        if pl != plists[0][1]:
+            k_ = next((i for i, (a, b) in enumerate(zip(pl + [None], plists[0][1] + [None])) if a != b), None)
+            ctx.viol('map:node-paths-differ-between-loads:%s' % mode2.split('+')[-1], 'the paths the nodes report depend on how (or under which logging level) the map was loaded', dict(case, mode=mode2),
+                     {'index': k_, 'this_load': pl[k_] if k_ is not None and k_ < len(pl) else None, 'first_load': plists[0][1][k_] if k_ is not None and k_ < len(plists[0][1]) else None})
     # --- addressability on the resource-loaded tree
     mode, m = loaded[0]
     seen_paths = {}
